@@ -20,6 +20,14 @@ func ledgerPlan(o LedgerGenOpts) func(p *PRNG, cfg Config, tier string) Plan {
 		oo.MultiOperatorMsgs = o.MultiOperatorMsgs && p.Chance(1, 2)
 		oo.BigAmounts = o.BigAmounts && p.Chance(1, 3)
 		plan := GenLedgerPlan(p, cfg, oo)
+		if oo.DirectSlashes {
+			factors := []string{"0.01", "0.05", "0.3", "0.5", "1"}
+			for bi := range plan.Blocks {
+				if p.Chance(1, 6) {
+					plan.Blocks[bi].Ops = append(plan.Blocks[bi].Ops, Op{K: "kslash", A: 1 + p.Intn(cfg.NOps-1), N: int64([]int{1, 10, 100, 1000}[p.Intn(4)]), S: factors[p.Intn(len(factors))], E: p.Intn(12), D: p.Intn(2)})
+				}
+			}
+		}
 		return Epilogue(plan, cfg, int(cfg.UnbondEpochs)+2)
 	}
 }
@@ -31,7 +39,7 @@ var ledgerAssumptions = []string{
 }
 
 func init() {
-	all := LedgerGenOpts{DowntimeBursts: true, Evidence: true, EpochJumps: true, Restarts: true, Replays: true, Unauthorized: true, BigAmounts: true, CheckTx: true}
+	all := LedgerGenOpts{DirectSlashes: true, DowntimeBursts: true, Evidence: true, EpochJumps: true, Restarts: true, Replays: true, Unauthorized: true, BigAmounts: true, CheckTx: true}
 	Register(&PropSpec{
 		ID: "C01", Level: "exploration",
 		Rule: "case = swarm config (2-5 operators, 1-4 extra stakers, 1-3 LST assets, native token) x plan of 25-140 blocks with 0-4 ops/block drawn from {deposit, withdraw, delegate, undelegate, associate, dissociate, native delegate/undelegate, opt-in/out, key change, unjail} with state-relative amounts (1 unit, per-mille of position, all, position+1, 2^64..2^255), plus faults {downtime bursts -> slash+jail, equivocation evidence, epoch jumps, restarts, replayed tx bytes, unauthorised callers}; conservation rule evaluated after every BeginBlock, tx and EndBlock; non-trivial = >=1 undelegation completed AND >=1 slash reduced a sum; distinct by (config, plan) hash",
